@@ -171,6 +171,16 @@ def _expr_simp(e):
             while len(args) >= 2 and isinstance(args[-1], ExprInt) and isinstance(args[-2], ExprInt):
                 i1 = args.pop()
                 i2 = args.pop()
+                if op in ['>>', '<<']:
+                    # i2 is the shifted value, i1 the count (may be narrower)
+                    if int(i1.arg) >= i2.get_size():
+                        o = 0
+                    elif op == '>>':
+                        o = int(i2.arg) >> int(i1.arg)
+                    else:
+                        o = int(i2.arg) << int(i1.arg)
+                    args.append(ExprInt(tab_size_int[i2.get_size()](o)))
+                    continue
                 if i1.get_size() != i2.get_size():
                     raise ValueError("diff size! %s %r %r"%(str(e),
                                                             i1.get_size(),
@@ -185,10 +195,6 @@ def _expr_simp(e):
                     o = i1.arg & i2.arg
                 elif op == '|':
                     o = i1.arg | i2.arg
-                elif op == '>>':
-                    o = i1.arg >> i2.arg
-                elif op == '<<':
-                    o = i1.arg << i2.arg
 
                 o = ExprInt(tab_size_int[i1.get_size()](o))
                 args.append(o)
